@@ -70,11 +70,11 @@ def small_cfg(g, method, idx):
     return cfg
 
 
-def child_digest(cfg):
-    """Same scenario in a second interpreter with a different hash seed."""
+def child_digest(cfg, before=()):
+    """Same scenario in a second interpreter with a different hash seed, optionally after other designs run first in that process."""
     env = dict(os.environ)
     env["PYTHONHASHSEED"] = "4242"
-    p = subprocess.run([sys.executable, "-m", "vf.props.C13", "--child"], input=jdump(cfg).encode(), capture_output=True, env=env, timeout=1800)
+    p = subprocess.run([sys.executable, "-m", "vf.props.C13", "--child"], input=jdump({"before": list(before), "cfg": cfg}).encode(), capture_output=True, env=env, timeout=3600)
     try:
         return tuple(json.loads(p.stdout.decode().strip().split("\n")[-1]))
     except Exception:  # noqa: BLE001
@@ -130,6 +130,27 @@ def manager_histories(g, idx, res, with_child):
     _, d5 = design(cfg, loads)
     res["designs"] += 1
     cmp("after-unrelated-designs", d5, ref, 3)
+    # after "sibling" designs: same land, heights, flow and pipe arrangement, but other media / other loads and limits - the
+    # situation in which a cache keyed by too few inputs hands back another design's intermediate results
+    import copy as _copy
+
+    sib = _copy.deepcopy(cfg)
+    sib["grout"]["conductivity"] = float(round(cfg["grout"]["conductivity"] * g.uniform(1.4, 2.2), 3))
+    sib["soil"]["conductivity"] = float(round(cfg["soil"]["conductivity"] * g.uniform(0.6, 0.85), 3))
+    sib["soil"]["rho_cp"] = float(round(cfg["soil"]["rho_cp"] * g.uniform(1.1, 1.4), 0))
+    for kk in ("conductivity", "conductivity_inner", "conductivity_outer"):
+        if kk in sib["pipe"]:
+            sib["pipe"][kk] = float(round(sib["pipe"][kk] * 1.35, 3))
+    sib2 = _copy.deepcopy(cfg)
+    sib2["loads_desc"] = {**cfg["loads_desc"], "seed": cfg["loads_desc"]["seed"] + 1, "scale": cfg["loads_desc"]["scale"] * 0.8}
+    sib2["design"]["max_eft"] = cfg["design"]["max_eft"] + 1.5
+    sib2["design"]["min_eft"] = cfg["design"]["min_eft"] - 1.0
+    sib2["simulation"]["num_months"] = 25 if cfg["simulation"]["num_months"] != 25 else 24
+    # the siblings must run BEFORE the scenario in a process that has never seen it (the reference above was computed first in
+    # this process), so this history runs in a child interpreter: sibling (media), sibling (loads), then the scenario itself
+    d7 = child_digest(cfg, before=[sib, sib2])
+    res["designs"] += 3
+    cmp("fresh-process-after-sibling-designs-with-other-media-and-loads", tuple(d7), tuple(ref), 3)
     if with_child:
         d6 = child_digest(cfg)
         res["designs"] += 1
@@ -235,7 +256,7 @@ def check(tier, seed):
     rep.rule = (
         "manager level: small scenarios of all bisection methods (RowWise in the thorough tier), 12-37 months, each run fresh and then through six "
         "histories (find_design twice, set_design + find_design again, permuted setter order, other nominal height, after two unrelated designs, "
-        "second process with another PYTHONHASHSEED); object level: one real GHE (pygfunction MIFT family of three heights) driven by 2-4 random "
+        "after two sibling designs that differ only in media / only in loads, limits and horizon, second process with another PYTHONHASHSEED); object level: one real GHE (pygfunction MIFT family of three heights) driven by 2-4 random "
         "operations among simulate(HYBRID), simulate(HOURLY, 12 months), size() at random heights, then one final operation compared bit for bit "
         "with a fresh object. non-trivial = history with >= 2 operations of different kind before the compared one; distinct by inputs."
     )
@@ -272,6 +293,9 @@ def replay(w):
 
 
 if __name__ == "__main__" and "--child" in sys.argv:
-    cfg = json.loads(sys.stdin.read())
+    job = json.loads(sys.stdin.read())
+    for other in job.get("before", []):
+        design(other, GL.make_loads(other["loads_desc"]))
+    cfg = job["cfg"]
     _, d = design(cfg, GL.make_loads(cfg["loads_desc"]))
     print(json.dumps(list(d)))
